@@ -13,6 +13,7 @@ import (
 	"context"
 	"errors"
 	"fmt"
+	"reflect"
 	"runtime"
 	"sort"
 	"strings"
@@ -59,9 +60,16 @@ type VerifEtcd struct {
 	rev     int64
 	hist    []verifMut
 	compact int64
+	base    int64
 	paused  bool
 	getErrs int
 	tagErrs map[string]int
+
+	nextLease int64
+	nput      int
+	keyLease  map[string]int64
+	gone      map[int64]bool
+	kach      map[int64]chan *clientv3.LeaseKeepAliveResponse
 	stale   int64
 	streams []*verifStream
 	ctx     context.Context
@@ -101,7 +109,7 @@ func VerifNewEtcd(hosts ...string) *VerifEtcd {
 			return nil, fmt.Errorf("verif: no fake etcd for %v", endpoints)
 		}
 	})
-	e := &VerifEtcd{rev: 1, ctx: context.Background()}
+	e := &VerifEtcd{rev: 1, base: 1, ctx: context.Background()}
 	verifFakeLock.Lock()
 	verifFakes[verifEpsKey(hosts)] = e
 	verifFakeLock.Unlock()
@@ -122,6 +130,7 @@ func VerifDropEtcd(hosts ...string) {
 func (e *VerifEtcd) VSetBase(rev int64) {
 	e.mu.Lock()
 	e.rev = rev
+	e.base = rev
 	e.mu.Unlock()
 }
 
@@ -198,8 +207,8 @@ func (e *VerifEtcd) Get(_ context.Context, key string, opts ...clientv3.OpOption
 	r := e.rev
 	if e.stale > 0 {
 		r -= e.stale
-		if r < 1 {
-			r = 1
+		if r < e.base {
+			r = e.base
 		}
 		e.stale = 0
 	}
@@ -237,20 +246,113 @@ func (e *VerifEtcd) Watch(ctx context.Context, key string, opts ...clientv3.OpOp
 	return st.ch
 }
 
-func (e *VerifEtcd) Grant(context.Context, int64) (*clientv3.LeaseGrantResponse, error) {
-	return nil, errors.New("verif: not implemented")
+// Leases, as far as discov.Publisher needs them: Grant numbers the leases 7001, 7002, ...; Put
+// attaches the key to the lease given with clientv3.WithLease (a key has one lease: the last
+// one); Revoke deletes the keys still attached to the lease (one revision each); KeepAlive
+// returns a channel that stays open until VExpire.
+func (e *VerifEtcd) Grant(_ context.Context, ttl int64) (*clientv3.LeaseGrantResponse, error) {
+	e.mu.Lock()
+	defer e.mu.Unlock()
+	if e.nextLease == 0 {
+		e.nextLease = 7000
+	}
+	e.nextLease++
+	e.logf(VerifLogEntry{W: "lease", T: "grant", Rev: e.nextLease})
+	return &clientv3.LeaseGrantResponse{ID: clientv3.LeaseID(e.nextLease), TTL: ttl}, nil
 }
 
-func (e *VerifEtcd) KeepAlive(context.Context, clientv3.LeaseID) (<-chan *clientv3.LeaseKeepAliveResponse, error) {
-	return nil, errors.New("verif: not implemented")
+func (e *VerifEtcd) KeepAlive(_ context.Context, id clientv3.LeaseID) (<-chan *clientv3.LeaseKeepAliveResponse, error) {
+	e.mu.Lock()
+	defer e.mu.Unlock()
+	ch := make(chan *clientv3.LeaseKeepAliveResponse, 1)
+	if e.kach == nil {
+		e.kach = map[int64]chan *clientv3.LeaseKeepAliveResponse{}
+	}
+	e.kach[int64(id)] = ch
+	return ch, nil
 }
 
-func (e *VerifEtcd) Put(context.Context, string, string, ...clientv3.OpOption) (*clientv3.PutResponse, error) {
-	return nil, errors.New("verif: not implemented")
+func (e *VerifEtcd) Put(_ context.Context, key, val string, opts ...clientv3.OpOption) (*clientv3.PutResponse, error) {
+	op := clientv3.OpPut(key, val, opts...)
+	lease := reflect.ValueOf(op).FieldByName("leaseID").Int()
+	e.mu.Lock()
+	defer e.mu.Unlock()
+	e.rev++
+	e.hist = append(e.hist, verifMut{rev: e.rev, key: key, val: val})
+	if e.keyLease == nil {
+		e.keyLease = map[string]int64{}
+	}
+	e.keyLease[key] = lease
+	e.nput++
+	e.logf(VerifLogEntry{W: "lease", T: "put", Rev: lease, K: key, V: val})
+	e.pumpAll()
+	return &clientv3.PutResponse{Header: &etcdserverpb.ResponseHeader{Revision: e.rev}}, nil
 }
 
-func (e *VerifEtcd) Revoke(context.Context, clientv3.LeaseID) (*clientv3.LeaseRevokeResponse, error) {
-	return nil, errors.New("verif: not implemented")
+func (e *VerifEtcd) dropLease(id int64) {
+	st := e.stateAt(e.rev)
+	var keys []string
+	for k, l := range e.keyLease {
+		if l == id {
+			keys = append(keys, k)
+		}
+	}
+	sort.Strings(keys)
+	for _, k := range keys {
+		delete(e.keyLease, k)
+		if _, ok := st[k]; ok {
+			e.rev++
+			e.hist = append(e.hist, verifMut{rev: e.rev, del: true, key: k})
+		}
+	}
+	if e.gone == nil {
+		e.gone = map[int64]bool{}
+	}
+	e.gone[id] = true
+	e.pumpAll()
+}
+
+func (e *VerifEtcd) Revoke(_ context.Context, id clientv3.LeaseID) (*clientv3.LeaseRevokeResponse, error) {
+	e.mu.Lock()
+	defer e.mu.Unlock()
+	e.logf(VerifLogEntry{W: "lease", T: "revoke", Rev: int64(id)})
+	if e.gone[int64(id)] {
+		return nil, errors.New("verif: requested lease not found")
+	}
+	e.dropLease(int64(id))
+	return &clientv3.LeaseRevokeResponse{Header: &etcdserverpb.ResponseHeader{Revision: e.rev}}, nil
+}
+
+// VExpire lets the lease expire: its keys are deleted and the keep-alive channel is closed.
+func (e *VerifEtcd) VExpire(id int64) {
+	e.mu.Lock()
+	defer e.mu.Unlock()
+	e.logf(VerifLogEntry{W: "lease", T: "expire", Rev: id})
+	e.dropLease(id)
+	if ch, ok := e.kach[id]; ok {
+		close(ch)
+		delete(e.kach, id)
+	}
+}
+
+// LeaseGone: the lease was revoked or expired.  Leases: the number of the last lease granted.
+func (e *VerifEtcd) LeaseGone(id int64) bool {
+	e.mu.Lock()
+	defer e.mu.Unlock()
+	return e.gone[id]
+}
+
+func (e *VerifEtcd) Leases() int64 {
+	e.mu.Lock()
+	defer e.mu.Unlock()
+	return e.nextLease
+}
+
+// PutCount: number of Put calls served so far.
+func (e *VerifEtcd) PutCount() int {
+	e.mu.Lock()
+	defer e.mu.Unlock()
+	return e.nput
 }
 
 // ---------------------------------------------------------------- streams
